@@ -100,15 +100,17 @@ func vpMk_Item(shape int, tag byte) Item {
 func vpEq_Item(a, b Item) bool { return vpEqItem(a, b) }
 func vpZero_Item(a Item) bool  { return a == nil }
 
-// lists: 0 one IRI, 1 two IRIs, 2 IRI + object
+// lists: 0 one IRI, 1 two IRIs, 2 IRI + object, 3 one object
 func vpMk_Items(shape int, tag byte) ItemCollection {
 	switch shape {
 	case 0:
 		return ItemCollection{vpMkIRI(tag)}
 	case 1:
 		return ItemCollection{vpMkIRI(tag), vpMkIRI(tag + 1)}
-	default:
+	case 2:
 		return ItemCollection{vpMkIRI(tag), &Object{ID: vpMkIRI(tag + 1), Type: NoteType}}
+	default:
+		return ItemCollection{&Object{ID: vpMkIRI(tag), Type: NoteType}}
 	}
 }
 func vpEq_Items(a, b ItemCollection) bool {
@@ -219,7 +221,7 @@ func vpShapes(kind string) int {
 	case "Item":
 		return 10
 	case "Items":
-		return 3
+		return 4
 	case "Time", "Duration", "Float":
 		return 3
 	case "Source", "Int":
